@@ -37,6 +37,27 @@ pub uninterp spec fn link_of<'tcx>(s: &StructPath, tcx: &'tcx TypeContext) -> Li
 impl StructPath {
     #[verifier::external_body] pub fn link_lifetimes<'tcx>(&self, tcx: &'tcx TypeContext) -> (r: LinkedLifetimes<'tcx>) ensures r == link_of(self, tcx) { unimplemented!() }
 }
+// ---- collaborators of the `let borrow_map = ..` statement of BorrowingParamVisitor::new
+// the iterator returned by LifetimeEnv::all_longer_lifetimes / all_shorter_lifetimes: direction flag and start node are what unit
+// hir_transitivity proves about the two wrappers; collecting it yields the closure (driver theorem collect_all there)
+pub struct LtIter<'env> { pub env: &'env LifetimeEnv, pub longer: bool, pub start: Lifetime }
+pub uninterp spec fn closure_set(env: &LifetimeEnv, longer: bool, start: Lifetime) -> Set<Lifetime>;
+impl LifetimeEnv {
+    #[verifier::external_body] pub fn all_longer_lifetimes<'a>(&'a self, lt: &Lifetime) -> (r: LtIter<'a>) ensures r.env == self, r.longer, r.start == *lt { unimplemented!() }
+    #[verifier::external_body] pub fn all_shorter_lifetimes<'a>(&'a self, lt: &Lifetime) -> (r: LtIter<'a>) ensures r.env == self, !r.longer, r.start == *lt { unimplemented!() }
+}
+impl<'env> LtIter<'env> {
+    // E7: Iterator::collect::<BTreeSet<Lifetime>>()
+    #[verifier::external_body] pub fn collect(self) -> (r: BTreeSet<Lifetime>) ensures r@ == closure_set(self.env, self.longer, self.start) { unimplemented!() }
+}
+impl BTreeSet<Lifetime> {
+    // E7: BTreeSet::iter() yields the members in ascending order, each once
+    #[verifier::external_body] pub fn members(&self) -> (r: Vec<Lifetime>)
+        ensures forall|l: Lifetime| self@.contains(l) <==> exists|i: int| 0 <= i < r@.len() && #[trigger] r@[i] == l, forall|i: int, j: int| 0 <= i < j < r@.len() ==> r@[i].0 < r@[j].0 { unimplemented!() }
+}
+impl<K, V> EntryMap<K, V> { pub fn new() -> (r: Self) ensures r.entries@.len() == 0 { EntryMap { entries: Vec::new() } } }
+pub struct MethodStub { pub lifetime_env: LifetimeEnv }
+
 // ---- collaborators of StructBorrowInfo::compute_for_struct_field
 #[verifier::external_body] pub struct Lifetimes { x: u8 }
 pub uninterp spec fn path_lts(s: &StructPath) -> Seq<MaybeStatic<Lifetime>>;
